@@ -250,12 +250,14 @@ func roleName(r protocol.ProtocolRole) string {
 // engine's verdicts vs the specification (same finding keys as the static walk).
 func runEngineTrace(rec *evi.Recorder, b *binding, impl implAuto, role protocol.ProtocolRole, useReal bool,
 	plan rawpeer.Plan, seq []string, pick func(int) int, ec *engineCounters, fail failFn) {
-	if _, broken := engineBroken.Load(b.id); broken {
-		return // an earlier trace of this automaton hung for the whole bound; already reported
+	bk := fmt.Sprintf("%s|%v|%d", b.id, useReal, role)
+	if _, broken := engineBroken.Load(bk); broken {
+		return // an earlier trace of this automaton hung for the whole bound; already reported / counted
 	}
 	res := driveTrace(b, impl, role, useReal, plan, seq, pick)
 	if res.stuck {
-		engineBroken.Store(b.id, true)
+		engineBroken.Store(bk, true)
+		rec.Class("engine_runs_abandoned_after_hang")
 	}
 	rec.Eval()
 	cs := c16Case{Binding: b.id, Sequence: seq, Role: roleName(role), Observed: res.obs, Note: res.cut}
@@ -413,6 +415,20 @@ func TestC16(t *testing.T) {
 		// the package's real Client / Server objects must run the same automaton from
 		// the same initial state (prediction = simulation of the exported map)
 		if !ba.real && b.real != nil {
+			for _, role := range []protocol.ProtocolRole{protocol.ProtocolRoleClient, protocol.ProtocolRoleServer} {
+				rec.Eval()
+				name, ag, err := probeInitial(b, role)
+				switch {
+				case err != nil:
+					rec.Class("real_initial_probe_failed")
+				case name != impl.initial() || ag != impl.agencyOf(impl.initial()):
+					vfail(fmt.Sprintf("real:%s:%s:initial-state", b.id, roleName(role)),
+						fmt.Sprintf("%s: the real %s object starts in state %s with agency %s; the exported state map / specification start in %s with agency %s",
+							b.id, roleName(role), name, ag, impl.initial(), impl.agencyOf(impl.initial())), nil)
+				default:
+					rec.Class("real_initial_state_confirmed")
+				}
+			}
 			rseqs := implSequences(b, impl, realDepth)
 			for _, role := range []protocol.ProtocolRole{protocol.ProtocolRoleClient, protocol.ProtocolRoleServer} {
 				for _, seq := range rseqs {
